@@ -363,6 +363,8 @@ int SQLITE3::Handle::close()
 {
   if (_stmt)
     sqlite3_finalize(_stmt);
+  _stmt = nullptr;
+  _stmt_status = STMT_NEW;
   int r = sqlite3_close(_db);
   _db = nullptr;
   _path.clear();
